@@ -254,6 +254,12 @@ impl<G: AffineRepr> InnerProductProof<G> {
         ProofError,
     > {
         let lg_n = self.L_vec.len();
+        if self.R_vec.len() != lg_n {
+            // A decoded proof may carry round lists of different lengths. The code
+            // below derives one challenge per (L, R) pair and indexes them up to lg_n,
+            // and callers emit one scalar per point, so unequal lists must be rejected.
+            return Err(ProofError::VerificationError);
+        }
         if lg_n >= 32 {
             // 4 billion multiplications should be enough for anyone
             // and this check prevents overflow in 1<<lg_n below.
